@@ -106,7 +106,7 @@ claim("C10", "DESIGN.md 5/C10 and 9", "Lean theorems: characters -> tokens -> pr
       "(blanks, tabs, LF or CR LF, comments) whose tokens render a program (commands, named arguments, numbers, quoted and bare-identifier strings, lists nested to any depth, trailing commas or not) "
       "parses to exactly that program with every node on the line it starts on; built from lexS_gap / spells_* (character level, Lemmas/Lex, incl. lexAll_fuel: the lexer's recursion bound never loses a token) and "
       "program_renders (token level, mutual induction over values; it exposed and fixed an inadequate recursion budget of the model). NOT covered by the theorem, and decided by the correspondence and the "
-      "round-trip oracle on the implementation only: tuples with unquoted keys or values (quoted keys with quoted/integer values are covered), unquoted non-identifier strings, user-written escape sequences inside quoted strings, EEMS 2.0 command form, and the "
+      "round-trip oracle on the implementation only: unquoted strings that are no identifiers - as values, tuple keys or tuple values (tuples with quoted or identifier keys and quoted, identifier, integer or decimal values are covered) -, user-written escape sequences inside quoted strings, EEMS 2.0 command form, and the "
       "rejection of malformed text (partial as proof for those). The executable model is compared with Parser().parse on every run over renderings of random abstract programs under random layouts, their "
       "single-character mutations and token soups (whole tree with line numbers, or error class). Every accepted text is also loaded with the real Program.from_source (a library that serves every command name): "
       "result names, command names, lines, argument names, values with their kinds, nesting and tuples handed to the commands must be those of the parse, whatever was loaded earlier in the process (texts differing "
